@@ -2,32 +2,15 @@
    instances, whatever their layout: every instance under its name and keyword, with exactly the
    instance names its record mentions outside strings and comments. *)
 From Coq Require Import List ZArith Bool NArith Lia.
-From SC Require Import P21Lex P21Str P21Str_Proofs P21Scan.
+From SC.gen Require Import ScanRule.
+From SC Require Import P21Lex P21Str P21Str_Proofs P21Sep P21Scan.
+From SC Require Export P21Sep_Proofs.
 Import ListNotations.
 Local Open Scope N_scope.
 
 (* ---------------- white space, comments ---------------- *)
-Lemma skip_ws_nonspace c l : is_space c = false -> skip_ws (c :: l) = c :: l.
-Proof. intros H. cbn [skip_ws]. rewrite H. reflexivity. Qed.
 
-Lemma skip_ws_spaces ws l : forallb is_space ws = true -> skip_ws (ws ++ l) = skip_ws l.
-Proof.
-  induction ws as [|c ws IH]; intros H; [reflexivity|].
-  cbn [forallb] in H. apply andb_true_iff in H. destruct H as [Hc Hw].
-  cbn [app skip_ws]. rewrite Hc. apply IH. exact Hw.
-Qed.
 
-Lemma comment_end_closes txt k : no_close txt = true -> comment_end (txt ++ STAR :: SLASH :: k) = Some k.
-Proof.
-  induction txt as [|a t IH]; intros H.
-  - reflexivity.
-  - destruct t as [|b t'].
-    + cbn [app comment_end]. change (STAR =? SLASH) with false. rewrite andb_false_r. reflexivity.
-    + cbn [no_close] in H. apply andb_true_iff in H. destruct H as [Hab Ht].
-      apply negb_true_iff in Hab.
-      change ((a :: b :: t') ++ STAR :: SLASH :: k) with (a :: b :: (t' ++ STAR :: SLASH :: k)).
-      cbn [comment_end]. rewrite Hab. apply (IH Ht).
-Qed.
 
 Lemma skip_sep_mono f : forall l x, skip_sep f l = Some x -> skip_sep (S f) l = Some x.
 Proof.
@@ -75,7 +58,7 @@ Qed.
 (* ---------------- digits ---------------- *)
 Lemma digits_loop_app ds : forall rest acc cnt,
   forallb is_digit ds = true -> head_is is_digit rest = false ->
-  digits_loop (ds ++ rest) acc cnt = (fold_left (fun a c => a * 10 + (c - 48)) ds acc, (cnt + length ds)%nat, rest).
+  digits_loop (ds ++ rest) acc cnt = (fold_left (fun a c => a * ID_BASE + (c - 48)) ds acc, (cnt + length ds)%nat, rest).
 Proof.
   induction ds as [|d ds IH]; intros rest acc cnt Hd Hr.
   - cbn [app fold_left length]. rewrite Nat.add_0_r.
@@ -85,12 +68,6 @@ Proof.
     cbn [fold_left length]. rewrite Nat.add_succ_r. reflexivity.
 Qed.
 
-Lemma digit_not_space c : is_digit c = true -> is_space c = false.
-Proof.
-  unfold is_digit, is_space. intros H. apply andb_true_iff in H. destruct H as [H1 H2].
-  apply N.leb_le in H1. apply N.leb_le in H2.
-  repeat (apply orb_false_iff; split); apply N.eqb_neq; lia.
-Qed.
 
 (* the text of separators followed by a non-digit does not start with a digit *)
 Lemma seps_head_not_digit s c rest : seps_ok s = true -> is_digit c = false ->
@@ -340,12 +317,6 @@ Proof.
     rewrite (IH k f _ d' _ Hr Hw1). rewrite <- app_assoc, <- refs_of_cons. reflexivity.
 Qed.
 
-Lemma seps_pairs_length s : (length (fst s) <= length (seps_text s))%nat.
-Proof.
-  destruct s as [pairs wsf]. unfold seps_text. cbn [fst snd]. rewrite app_length.
-  induction pairs as [|[ws txt] ps IH]; [cbn; lia|].
-  cbn [flat_map fst snd length]. rewrite !app_length. cbn [length]. lia.
-Qed.
 
 (* the separators before a character that is neither white space nor a slash, with the fuel the model uses *)
 Lemma skip_sep_seps_fuel s c rest n :
@@ -375,7 +346,7 @@ Qed.
 (* ---------------- readInstanceNumber ---------------- *)
 Lemma read_inst_number_ok s0 ws1 ds s1 tail n :
   seps_ok s0 = true -> forallb is_space ws1 = true ->
-  forallb is_digit ds = true -> Nat.eqb (length ds) 0 = false -> Nat.leb (length ds) 20 = true ->
+  forallb is_digit ds = true -> Nat.eqb (length ds) 0 = false -> Nat.leb (length ds) ID_MAXLEN = true ->
   (0 <? dval ds) = true -> (dval ds <=? ID_MAX) = true ->
   seps_ok s1 = true ->
   (length (seps_text s0 ++ HASH :: ws1 ++ ds ++ seps_text s1 ++ EQUALS :: tail) <= n)%nat ->
@@ -395,7 +366,7 @@ Proof.
   rewrite (digits_loop_app (d0 :: ds') _ 0 0%nat Hds (seps_head_not_digit s1 EQUALS tail H1 eq_refl)).
   fold (dval (d0 :: ds')). cbn [Nat.add].
   apply Nat.leb_le in Hlen.
-  destruct (Nat.ltb_spec 20 (length (d0 :: ds'))) as [E|E]; [lia|].
+  destruct (Nat.ltb_spec ID_MAXLEN (length (d0 :: ds'))) as [E|E]; [lia|].
   assert (Hn1 : (length (seps_text s1 ++ EQUALS :: tail) <= n)%nat).
   { rewrite !app_length in Hn. cbn [length] in Hn. rewrite !app_length in Hn. rewrite app_length. cbn [length] in *. lia. }
   rewrite (skip_sep_seps_fuel s1 EQUALS tail n H1); [|reflexivity|reflexivity|exact Hn1].
@@ -418,8 +389,6 @@ Proof.
   repeat (rewrite <- app_assoc || rewrite <- app_comm_cons). reflexivity.
 Qed.
 
-Lemma head_is_app p a rest : a <> [] -> head_is p (a ++ rest) = head_is p a.
-Proof. destruct a; [congruence|reflexivity]. Qed.
 
 Lemma tok_ok_ext t a rest : a <> [] -> tok_ok t (a ++ rest) = tok_ok t a.
 Proof. intros Ha. destruct t; cbn [tok_ok]; rewrite ?(head_is_app _ a rest Ha); reflexivity. Qed.
